@@ -4,7 +4,9 @@ CHECK = {
                      timeout={"quick": 600, "thorough": 1500})],
     "lean_sources": ["ClusterVerif/Model/C18.lean", "ClusterVerif/Spec/C18.lean", "ClusterVerif/Lemmas/C18.lean",
                      "ClusterVerif/Gen/C18.lean", "ClusterVerif/Model/C18Source.lean", "ClusterVerif/Model/C18Sync.lean",
-                     "ClusterVerif/Model/C18SyncProgs.lean", "ClusterVerif/Lemmas/C18Sync.lean"],
+                     "ClusterVerif/Model/C18SyncProgs.lean", "ClusterVerif/Lemmas/C18Sync.lean",
+                     "ClusterVerif/Lemmas/C18SyncClusterA.lean", "ClusterVerif/Lemmas/C18SyncClusterB.lean",
+                     "ClusterVerif/Lemmas/C18SyncClusterC.lean", "ClusterVerif/Lemmas/C18SyncClusterR.lean"],
     "search_seeds": {"quick": 1, "thorough": 2},
     "rule": "n = seconds of soak per structure (alerts, window, metrics store+checker, operation tracker, stateless tracker, informers, crdt batching, "
             "tracker / crdt / Cluster life cycles: Shutdown racing the API), "
@@ -16,7 +18,7 @@ CHECK = {
                      "fake IPFSConnector/PinTracker RPC services, StoreMonitor alerts channel, verif_export.go (VerifNewCluster, VerifAlertsHandler), verif_export_c18.go (VerifC18Prepare/Start: no-op tracer, peer manager, NewCluster's ready()+run() goroutine)",
                      "Model/C18SyncProgs.lean: hand transcription of the shutdown protocols (tied to the source text by rfl only)"],
     "assumptions": ["channel-, WaitGroup-, context- and go-statement ordering of the shutdown paths is covered for three hand-transcribed small-step models "
-                    "(stateless tracker, crdt consensus, Cluster flags), tied to the source by a text snapshot (rfl) only: that the Go functions behave like "
+                    "(stateless tracker, crdt consensus, Cluster life cycle), tied to the source by a text snapshot (rfl) only: that the Go functions behave like "
                     "the transcribed programs is trusted; other uses of channels are only exercised by the -race soaks",
                     "the extractor is syntactic (no type checker): it follows guarded data into same-package callees through the receiver and through "
                     "parameters that receive `x.field` (or a bound parameter) directly, and records references leaving a function (return / send / store); "
@@ -25,6 +27,9 @@ CHECK = {
                     "never to be written after they were stored into a window (payload list)",
                     "a racy state of the synchronisation models = two threads about to access one cell, one writing (conflicting accesses simultaneously enabled); "
                     "the step from 'no racy state is reachable' to 'every pair of conflicting accesses is happens-before ordered' is not proved",
+                    "Cluster life-cycle model: the whole protocol at once (8033 states, passes when evaluated) is certified as three scenarios with two concurrent Shutdowns each; "
+                    "Shutdown's leave-the-cluster branch is a free choice (superset of the real guard), its `return err` arms are not transcribed; watchPeers' loop is unrolled once "
+                    "(an iteration that finds the peer in the peerset changes no shared state); that this loses no behaviour is argued in notes/C18.md, not proved",
                     "a soak that sees no race, panic or stall proves nothing by itself: the universal claim rests on the lockset theorems + the regenerated table",
                     "initialisation before publication is exempt: key/value initialisers inside the composite literal of the owning struct",
                     "calls made while a component is still initialising or after it was shut down (Consensus.Shutdown before Ready, SetClient after Shutdown, a second SetClient) "
@@ -41,8 +46,10 @@ META = {
             "graph is acyclic; (3) alerts_safe: in the small-step model of Cluster.Alerts() vs alertsHandler every returned list, under every interleaving, has no empty entry, "
             "no duplicate and no index error; (4) sync_drf + exhaustive exploration (closed-set certificates, soundness proved once) of small-step models with channels, "
             "WaitGroups, cancellation and go statements: the stateless tracker and the crdt consensus component in use never send on / close a closed channel, deadlock or "
-            "reach a racy state under any interleaving; for Cluster the full statement is REFUTED (Shutdown racing ready(): deadlock, known finding K18b, replayed by a soak) "
-            "and proved for the restricted protocol; the models are tied to the source by a text snapshot (rfl). "
+            "reach a racy state under any interleaving; the same is proved for the Cluster life cycle as repaired by /repo 87856f0 (cluster_shutdown_safe: Shutdown at any moment "
+            "after NewCluster returned, racing ready()/run()/watchPeers, every branch of ready() and watchPeers, three scenarios of 2176-2752 states each, no thread able to spin), "
+            "while the protocol before that commit is REFUTED (cluster_old_protocol_deadlocks: Shutdown racing ready(), the former finding K18b = what a revert reintroduces; the "
+            "soak clusterearly is its run-time oracle) as are three realistic wrong edits of the repaired one; the models are tied to the source by a text snapshot (rfl). "
             "Runtime oracle: -race soaks of the real structures and life cycles with structural checks, watchdog and panic capture; a clean soak proves nothing by itself.",
     "note": "Partial by nature: channel/WaitGroup ordering is proved for three transcribed models only (text-snapshot tie); cross-package aliasing is not covered; the table is "
             "produced by a syntactic extractor (trusted), now summary-based across same-package calls (calling contexts, parameter aliasing, escapes). "
